@@ -4,7 +4,7 @@
 use crate::scenario::*;
 use crate::world::*;
 use pypipegraph2::verif::{take_transitions, JobOutputResult, Snapshot, VerifStrategy};
-use pypipegraph2::{JobKind, PPGEvaluator, PPGEvaluatorError};
+use pypipegraph2::{JobKind, PPGEvaluator, PPGEvaluatorError, PPGEvaluatorStrategy, StrategyForTesting};
 use std::cell::Cell;
 use std::collections::{BTreeMap, BTreeSet, HashMap};
 use std::rc::Rc;
@@ -92,6 +92,8 @@ pub struct EvalOut {
     pub branching: Vec<u8>,
     /// transitions that the hook log did not report (seen through the snapshot instead)
     pub hook_log_gaps: usize,
+    /// evaluated through the crate's own StrategyForTesting
+    pub real_strategy: bool,
     pub pending_signal_sightings: usize,
 }
 
@@ -158,9 +160,7 @@ fn permute<T>(v: &mut Vec<T>, stream: &[u8], off: usize) {
     }
 }
 
-type Eng = PPGEvaluator<VerifStrategy>;
-
-fn observable(g: &mut Eng, ids: &BTreeMap<String, usize>) -> (Snapshot, Vec<String>, String, bool) {
+fn observable<S: PPGEvaluatorStrategy>(g: &mut PPGEvaluator<S>, ids: &BTreeMap<String, usize>) -> (Snapshot, Vec<String>, String, bool) {
     // the snapshot comes first: `is_finished()` takes `&mut self` and may itself change the
     // start status, which would hide a change made by the call under test
     let snap = g.verif_snapshot();
@@ -205,13 +205,29 @@ fn observable(g: &mut Eng, ids: &BTreeMap<String, usize>) -> (Snapshot, Vec<Stri
 /// history); it is updated in place (disk, ledger, evalno) but `w.history` is only
 /// replaced by the caller.
 pub fn run_eval(w: &mut World, plan: &Plan, sched: &Sched, opts: &Opts) -> EvalOut {
-    let mut res = EvalOut::default();
     w.evalno += 1;
     w.forget_superseded();
     let _ = take_transitions();
     let wr = Rc::new(w.clone());
     let noise_hits = Rc::new(Cell::new(0usize));
     let comparisons = Rc::new(Cell::new(0usize));
+    let hist: HashMap<String, String> = w.history.iter().map(|(k, v)| (k.clone(), v.clone())).collect();
+    if w.cfg.scope == crate::scenario::Scope::Whole && !w.cfg.stamps && w.cfg.names == crate::scenario::Names::JobIds {
+        // this configuration is, by construction, the semantics of the crate's own `StrategyForTesting`
+        // (records compared as strings, input names = sorted upstream job ids, presence = a set of ids):
+        // run it through the real thing, so that src/lib.rs is part of what is checked
+        let strat = StrategyForTesting::new();
+        for s in w.active() {
+            let id = w.id(s);
+            if id.split(":::").all(|p| wr.disk.contains_key(p)) {
+                strat.already_done.borrow_mut().insert(id);
+            }
+        }
+        let g = PPGEvaluator::new_with_history(hist, strat);
+        let mut res = run_eval_g(w, plan, sched, opts, g, &noise_hits, &comparisons);
+        res.real_strategy = true;
+        return res;
+    }
     let present = {
         let wr = wr.clone();
         Rc::new(move |q: &str| q.split(":::").all(|p| wr.disk.contains_key(p)))
@@ -244,8 +260,20 @@ pub fn run_eval(w: &mut World, plan: &Plan, sched: &Sched, opts: &Opts) -> EvalO
         altered,
         input_list,
     };
-    let hist: HashMap<String, String> = w.history.iter().map(|(k, v)| (k.clone(), v.clone())).collect();
-    let mut g = PPGEvaluator::new_with_history(hist, strat);
+    let g = PPGEvaluator::new_with_history(hist, strat);
+    run_eval_g(w, plan, sched, opts, g, &noise_hits, &comparisons)
+}
+
+fn run_eval_g<S: PPGEvaluatorStrategy>(
+    w: &mut World,
+    plan: &Plan,
+    sched: &Sched,
+    opts: &Opts,
+    mut g: PPGEvaluator<S>,
+    noise_hits: &Rc<Cell<usize>>,
+    comparisons: &Rc<Cell<usize>>,
+) -> EvalOut {
+    let mut res = EvalOut::default();
     let mut nodes = w.active();
     permute(&mut nodes, &sched.decl, 0);
     let ids: BTreeMap<String, usize> = w.id_map();
@@ -920,8 +948,8 @@ fn leave_failed_output(w: &mut World, s: usize, j: &str, fail_mode: u8) {
 
 /// C20: every illegal call on every known job (and a second event_startup) must be
 /// rejected with an API error and leave everything observable unchanged
-fn probe_round(
-    g: &mut Eng,
+fn probe_round<S: PPGEvaluatorStrategy>(
+    g: &mut PPGEvaluator<S>,
     ids: &BTreeMap<String, usize>,
     ready: &BTreeSet<String>,
     my_running: &BTreeSet<String>,
